@@ -58,8 +58,21 @@ func composeReplay(e *env) error {
 		} else {
 			blocks = append(blocks, absDay{Date: 2, Es: [][]int{}}) // an empty day appended
 		}
+		// every fifth case: a date format with a time of day; the blocks of one date get different times
+		var global []string
+		if idx%5 == 4 {
+			global = []string{"--date-format", "2006/01/02 15:04"}
+			for k := range w.dates {
+				if w.dates[k] != "" {
+					w.dates[k] += " 08:00"
+				}
+			}
+		}
 		texts := make([]string, len(blocks))
 		for i, b := range blocks {
+			if global != nil {
+				w.dates[b.Date] = w.dates[b.Date][:11] + fmt.Sprintf("%02d:30", 8+i)
+			}
 			texts[i] = w.logText([]absDay{b}, cc)
 			if !strings.HasSuffix(texts[i], "\n") {
 				texts[i] += "\n"
@@ -70,7 +83,7 @@ func composeReplay(e *env) error {
 		e.count(0, 0, 1)
 		run := func(log string, args ...string) (string, bool) {
 			out := &failWriter{limit: -1}
-			res := runInProc(args, map[string]fileSrc{"food.yaml": strSrc(book), "log.yaml": strSrc(log)}, out)
+			res := runInProc(append(append([]string{}, global...), args...), map[string]fileSrc{"food.yaml": strSrc(book), "log.yaml": strSrc(log)}, out)
 			e.count(0, 1, 0)
 			if res.Err != nil || res.Panicked != nil || res.TimedOut {
 				e.mismatch("report-fails", "cmd/hranoprovod-cli", fmt.Sprintf("%v fails on a well-formed log: %v %v", args, res.Err, res.Panicked), map[string]interface{}{"log": log, "book": book})
